@@ -99,6 +99,7 @@ impl<'a> Sess<'a> {
         let url = self.urls[m.url].clone();
         let lang = LANGS[m.url];
         if m.kind == "open" || m.kind == "change" { self.client[m.url] = m.text.clone(); }
+        if m.kind.starts_with("deletedir") { for u in 0..self.client.len() { if self.paths[u].is_some() { self.client[u] = String::new(); } } }
         let shown = if m.kind == "open" || m.kind == "change" { m.text.clone() } else { self.client[m.url].clone() };
         // a configuration change takes the configuration named in the message, or the next one of a fixed walk
         let cfg = if m.kind == "config" {
@@ -122,6 +123,11 @@ impl<'a> Sess<'a> {
             "addfile" => self.ls.exec("HarperAddToFileDict", json!(["harperish", url])),
             "config" => self.ls.did_change_configuration(),
             "delete" => self.ls.submit("workspace/didChangeWatchedFiles", json!({"changes": [{"uri": url, "type": 3}]}), false),
+            // the directory that holds the session's files is reported deleted (with or without a trailing slash)
+            "deletedir" | "deletedir/" => {
+                let dir_uri = format!("file://{}{}", self.dir.to_string_lossy(), if m.kind.ends_with('/') { "/" } else { "" });
+                self.ls.submit("workspace/didChangeWatchedFiles", json!({"changes": [{"uri": dir_uri, "type": 3}]}), false)
+            }
             _ => unreachable!(),
         }
     }
@@ -248,6 +254,11 @@ pub fn main(a: &Args) {
                 run(&[m("open", u, "A"), m("silentcfg", u, c), m("change", u, "B"), m("config", u, c)], &[], &[], &[], &mut out);
                 run(&[m("open", u, "A"), m("open", (u + 1) % 2, "C"), m("silentcfg", u, c), m("change", (u + 1) % 2, "D"), m("config", u, c), m("change", u, "B")], &[], &[], &[], &mut out);
             }
+        }
+        // (1h) the directory of the documents is deleted: every document in it ends with empty diagnostics, the untitled one keeps its own
+        for kind in ["deletedir", "deletedir/"] {
+            run(&[m("open", 0, "A"), m("open", 1, "B"), m("open", 2, "C"), m("open", 3, "A"), m(kind, 0, "")], &[], &[], &[], &mut out);
+            run(&[m("open", 0, "A"), m("open", 4, "B"), m("open", 2, "C"), m(kind, 0, ""), m("open", 0, "B"), m("change", 2, "A")], &[], &[], &[], &mut out);
         }
         // (1e) a very long document: open short, grow long, shrink again; open long; configuration change while long
         for u in [0usize, 2].into_iter().take(a.num("long-docs", 1) as usize) {
